@@ -66,15 +66,18 @@ class RawX12File(object):
         while True:
             if self.buffer.find(self.seg_term) == -1:
                 # Need more data
-                self.buffer += self.fd.read(DEFAULT_BUFSIZE)
-            if self.buffer.find(self.seg_term) == -1:
-                # Still have no segment terminator
-                break
+                chunk = self.fd.read(DEFAULT_BUFSIZE)
+                if chunk == '':
+                    # End of stream, no further segment terminator
+                    break
+                self.buffer += chunk
+                continue
             # Get first segment in buffer
             (line, self.buffer) = self.buffer.split(self.seg_term, 1)
             line = line.lstrip('\n\r')
             if line == '':
-                break
+                # Empty segment, skip it
+                continue
             yield(line)
 
     def get_term(self):
